@@ -197,7 +197,7 @@ func TestVerifC19Concurrent(t *testing.T) {
 			t.Fatalf("harness: parsing backend url: %s", err)
 		}
 
-		srv := vc19NewServer(t, apiURL, errs, 30*time.Second)
+		srv := vc19NewServer(t, apiURL, errs, 30*time.Second, nil)
 		fr := &vc19CFront{base: base, tap: &vc19CTap{h: srv.Handler}}
 		srv.Handler = fr.tap
 
